@@ -559,7 +559,7 @@ def check_C07(tier, seed, replay=None):
 
 def check_C11(tier, seed, replay=None):
     return ref_family_check("C11", tier, seed,
-                            [("procs", "", 500), ("perm", "noties", 1500), ("procs", "selector", 300), ("procs", "subpairs", 300), ("perm", "agg", 1000), ("perm", "bin", 1500)],
+                            [("procs", "", 500), ("perm", "noties", 1500), ("procs", "selector", 300), ("procs", "subpairs", 300), ("procs", "agg", 500), ("perm", "agg", 1000), ("perm", "bin", 1500)],
                             [("procs", "", 8000), ("perm", "noties", 30000), ("procs", "selector", 5000), ("procs", "agg", 4000), ("procs", "subpairs", 5000), ("perm", "bin", 20000)],
                             corr=corr_core("C11", ("sel", "bin", "tree")))
 
